@@ -5,7 +5,7 @@ answer VIOLATION (exit 1) on such an edit; exit 2 (undecided) is allowed but not
 import json, os, subprocess, sys
 V = '/verif'
 MAP = [  # (substring of meta['function'], checks to run)
-    ('validate_jsr_specifier', ['C06']), ('try_load', ['C05', 'C03']), ('Builder::visit', ['C05']), ('build_fast_check_type_graph', ['C12']),
+    ('validate_jsr_specifier', ['C06']), ('try_load', ['C05', 'C03']), ('visit_module_dependencies', ['C01', 'C07']), ('Builder::visit', ['C05', 'C03']), ('build_fast_check_type_graph', ['C12']),
     ('resolve_dependency_from_dep', ['C14']), ('try_get', ['C14']), ('ModuleGraph::get', ['C14']), ('ModuleGraph::resolve', ['C14', 'C02']),
     ('ModuleEntryIterator', ['C15', 'C02', 'C18']), ('ModuleGraphErrorIterator', ['C02']), ('prune_types', ['C17']), ('segment', ['C18']), ('valid', ['C02']),
     ('resolve_version', ['C06']), ('get_for_package', ['C06']), ('add_nv', ['C07', 'C06']), ('add_export', ['C07']), ('export', ['C07']),
